@@ -288,12 +288,20 @@ func (runInfo *runInfoStruct) invokeAddrExpr(expr *ast.AddrExpr) {
 		return
 	}
 
-	if runInfo.rv.CanAddr() {
+	if runInfo.rv.CanAddr() && !isSharedNilValue(runInfo.rv) {
 		runInfo.rv = runInfo.rv.Addr()
 	} else {
 		i := runInfo.rv.Interface()
 		runInfo.rv = reflect.ValueOf(&i)
 	}
+}
+
+// isSharedNilValue returns true if v is the addressable nil value that env
+// hands out for every nil binding: a pointer to it would let a script
+// overwrite nil for the whole process.
+func isSharedNilValue(v reflect.Value) bool {
+	return v.Kind() == reflect.Interface && v.IsNil() && env.NilValue.CanAddr() &&
+		v.Addr().Pointer() == env.NilValue.Addr().Pointer()
 }
 
 // invokeUnaryExpr evaluates a unary expression.
